@@ -62,13 +62,26 @@ def run(pid, tier, seed, rundir, model_run):
                ("pull", ["--jobs", "1"]), ("pull", ["--jobs", "4", "--delete"])]
     if tier != "thorough":
         configs = [configs[0], configs[3], configs[4]]
+    # one more push --delete run whose DELETE LIST is long (several pipe writes): a sender killed between two list writes leaves
+    # the remote `xargs … rm` with a list cut in the middle of a name — no prefix of a stale name may be taken for a path.
+    # What the remote xargs is handed is recorded by a stand-in (tools/xargslog/xargs): every item must be a planned name.
+    configs = configs + [("push-longlist", ["--jobs", "1", "--delete"])]
     for direction, flags in configs:
         src, dst = scenario_trees(rng)
+        longlist = direction == "push-longlist"
+        if longlist:
+            direction = "push"
+            src = {"small.txt": b"small new\n", "keep/k.txt": b"kept"}; dst = {"small.txt": b"small old version\n", "keep/k.txt": b"kept"}
+            for i in range(1150):          # > 64 KiB of names: more than one pipe-full
+                dst[f"stale/s{i:04d}-" + "a" * 52] = b"x"
         with Sandbox("C09") as sb:
             T, W = sb.path("T"), sb.path("W")
             whome = os.path.join(W, "home")
             os.makedirs(whome)
             sb.env["HOME"] = whome; sb.env["SSH_STUB_HOME"] = whome
+            xlog = sb.path("xargs-log"); os.makedirs(xlog, exist_ok=True)
+            sb.env["XARGS_LOG_DIR"] = xlog
+            sb.env["PATH"] = os.path.join(os.path.dirname(os.path.abspath(__file__)), "xargslog") + ":" + sb.env["PATH"]
             if direction == "local":
                 sroot, droot = os.path.join(W, "src"), os.path.join(W, "dst"); sarg, darg = sroot, droot
             elif direction == "push":
@@ -77,7 +90,9 @@ def run(pid, tier, seed, rundir, model_run):
                 sroot, droot = os.path.join(whome, "rsrc"), os.path.join(W, "dst"); sarg, darg = f"{HOST}:rsrc", droot
             smt = {k: 1_650_000_000 + i for i, k in enumerate(sorted(src))}
             dmt = {k: 1_500_000_000 for k in dst}
-            dmt["same.txt"] = smt["same.txt"]
+            for k in dst:
+                if k in src and dst[k] == src[k]:
+                    dmt[k] = smt[k]            # unchanged files: same size and mtime, outside the plan
             write_tree(sroot, src, smt); write_tree(droot, dst, dmt)
             shutil.copytree(W, T, symlinks=True)
 
@@ -103,12 +118,16 @@ def run(pid, tier, seed, rundir, model_run):
             if len(res["samples"]) < 6:
                 res["samples"].append({"direction": direction, "flags": flags, "per-thread max calls": maxc, "transferred": sorted(transferred), "deleted": sorted(deleted)})
             for sc, mx in sorted(maxc.items()):
+                if longlist and sc != "write":
+                    continue                    # this scenario is about the writes that feed the remote commands
                 # openat is dominated by runtime start-up (shared libraries): sample it, sweep the rest completely
                 js = list(range(1, mx + 1))
                 if sc == "openat" and tier != "thorough":
                     js = js[::3]
                 for j in js:
                     restore()
+                    for fn in os.listdir(xlog):
+                        os.remove(os.path.join(xlog, fn))
                     kr = subprocess.run(["strace", "-f", "-b", "execve", "-qq", "-o", "/dev/null", "-e", f"trace={sc}", "-e", f"inject={sc}:signal=SIGKILL:when={j}"] + cmd,
                                         env=sb.env, cwd=sb.dir, stdout=subprocess.PIPE, stderr=subprocess.PIPE)
                     nk += 1
@@ -117,6 +136,27 @@ def run(pid, tier, seed, rundir, model_run):
                     time.sleep(0.05 if direction != "push" else 0.25)
                     after = read_tree(droot)
                     rep = {"direction": direction, "flags": flags, "killed_before": f"{sc} #{j} (per thread)", "rc": kr.returncode}
+                    if direction == "push":
+                        rroot = os.path.relpath(droot, whome)
+                        ok_rm = {f"{rroot}/{p}".encode() for p in dst if p not in src}
+                        ok_dirs = {rroot.encode()} | {f"{rroot}/{os.path.dirname(p)}".encode() for p in src if os.path.dirname(p)}
+                        ok_dirs |= {d_.rsplit(b"/", k_)[0] for d_ in list(ok_dirs) for k_ in range(1, d_.count(b"/") + 1)}
+                        for fn in sorted(os.listdir(xlog)):
+                            if not fn.endswith(".args"):
+                                continue
+                            args_ = open(os.path.join(xlog, fn)).read().strip()
+                            try:
+                                raw = open(os.path.join(xlog, fn[:-5] + ".stdin"), "rb").read()
+                            except OSError:
+                                continue
+                            items = [x for x in raw.split(b"\0") if x]
+                            allowed_ = ok_rm if " rm " in f" {args_} " else ok_dirs
+                            bad = [x for x in items if x not in allowed_]
+                            if bad:
+                                res["violations"].append(("remote-command-ran-on-a-name-outside-the-plan", f"the remote `xargs {args_}` was handed {len(items)} names of which {bad[:2]!r} {'is' if len(bad) == 1 else 'are'} not in the plan (a list cut in the middle of a name)", rep))
+                                break
+                        for fn in os.listdir(xlog):
+                            os.remove(os.path.join(xlog, fn))
                     for p, c in nonstaging(after).items():
                         if c != dst.get(p) and c != src.get(p):
                             key = "truncated-or-mixed-file-at-live-path"
@@ -128,9 +168,11 @@ def run(pid, tier, seed, rundir, model_run):
                             else:
                                 res["violations"].append(("file-outside-plan-removed", f"{p} is not in the plan but is gone after the kill", rep))
                     # with --delete the two files absent from the source ARE in the plan (as deletes)
-                    for p in (("same.txt",) if "--delete" in flags else ("outside-plan.txt", "stale.txt", "same.txt")):
+                    unchanged_ = [p for p in dst if p in src and dst[p] == src[p]]
+                    for p in (unchanged_ if "--delete" in flags else ["outside-plan.txt", "stale.txt"] + unchanged_):
                         if after.get(p) != dst.get(p):
-                            res["violations"].append(("file-outside-plan-changed", f"{p} is outside the plan but changed", rep))
+                            res["violations"].append(("file-outside-plan-changed", f"{p} is outside the plan but changed or vanished", rep))
+                            break
                     if read_tree(sroot) != src:
                         res["violations"].append(("source-modified", "the source tree changed", rep))
                     # re-run: must complete and give the uninterrupted result
